@@ -141,6 +141,10 @@ ReopenPreds(s, op, x) ==
   \* (a read-only mapping cannot grow the file: its capacity is at most the file length)
   <<"C05", "CapacityCoversAllocated", (ro \/ op.cap = 0 \/ o.cap = op.cap) /\ o.cap >= o.alloc /\ o.rem = o.cap - o.alloc>>,
   <<"C09", "ReadOnlyFlag", x.descr.read_only = ro>>,
+  <<"C16", "AccessorsAfterReopen", /\ x.descr.is_map /\ x.descr.is_ondisk /\ ~x.descr.is_inmemory /\ ~x.descr.is_map_anon
+                                   /\ x.descr.is_map_file /\ x.descr.has_path /\ x.descr.page_size = x.descr.os_page_size
+                                   /\ x.descr.reserved_bytes = ReservedOf(cfg) /\ x.descr.data_offset = DataOffsetOf(ReservedOf(cfg), TRUE)
+                                   /\ x.descr.capacity = o.cap /\ o.rem = o.cap - o.alloc>>,
   \* a private or read-only open leaves every byte that was in the file (a writable private open may append zeros
   \* when a larger capacity is requested)
   <<"C09", "NonSharedOpenLeavesFile",
